@@ -1,10 +1,9 @@
-// vec![e; n] (macro M3) in decoder units (C09): an allocation must be bounded by a fixed multiple of the INPUT
-// length.  input_len() is an uninterpreted constant tied to the entry point's argument by its precondition
-// `bytes@.len() == input_len()`, so the proof is for every input length.
-pub uninterp spec fn input_len() -> nat;
-pub open spec fn alloc_budget() -> nat { 2 * input_len() + 64 }
+// vec![e; n] (macro M3) in the C09 variant of the decoder units: alloc_budget() is an UNINTERPRETED bound that every
+// decoder entry point requires to be at least its input length (so the proof covers budget == input length, for every
+// input); each allocation must then be bounded by a fixed multiple of it plus a constant.
+pub uninterp spec fn alloc_budget() -> nat;
 #[verifier::external_body]
 pub fn alloc_fill_v(e: u8, n: usize) -> (r: Vec<u8>)
-    requires n <= alloc_budget(), // [alloc.bounded_by_input]
+    requires n <= 2 * alloc_budget() + 128, // [alloc.bounded_by_input_length]
     ensures r@ == filled(e, n as nat)
 { unimplemented!() }
